@@ -122,6 +122,25 @@ pub fn gen(tier: &str, seed: u64, out: &mut dyn Write) {
             emit(out, &scratch, &format!("rich=13 load=1 stores={} sabot=0 kinds=0 pre={} craft=0 legacy={} e=", legacy, pre, legacy));
         }
     }
+    // round 4: PROCESS history - a failing save of another font on this thread right before the observed save (the
+    // fresh-path comparison runs on a fresh thread); store names that are not valid UTF-8; dot-named store entries
+    for prior in 1..=8 {
+        for load in 0..2 {
+            for &(rich, pre) in &[(0u32, 0u32), (31, 2), (3, 5 * load)] {
+                emit(out, &scratch, &format!("rich={} load={} stores=1 sabot=0 kinds=0 pre={} craft=0 prior={} e=", rich, load, pre, prior));
+            }
+        }
+    }
+    for craft in 14..=15 {
+        for pre in [0u32, 2, 5] {
+            for rich in [0u32, 31] {
+                emit(out, &scratch, &format!("rich={} load=1 stores=2 sabot=0 kinds=0 pre={} craft={} e=", rich, pre, craft));
+            }
+        }
+    }
+    for pre in [0u32, 2, 5] {
+        emit(out, &scratch, &format!("rich=31 load=1 stores=3 sabot=0 kinds=0 pre={} craft=0 e=", pre));
+    }
     // other entry points, other spellings of the target, fonts from partial loads (phase 3 review)
     for wo in 1..=2 {
         for pre in 0..6 {
